@@ -17,6 +17,12 @@ PINNED = {
     'is_keyword': ["val = value.upper()",
                    "for kwdict in self._keywords:\n    if val in kwdict:\n        return (kwdict[val], value)\n"
                    "else:\n    return (tokens.Name, value)"],
+    'get_tokens.ladder': [
+        "if isinstance(text, TextIOBase):\n    text = text.read()",
+        "if isinstance(text, str):\n    pass\nelif isinstance(text, bytes):\n    if encoding:\n        text = text.decode(encoding)\n"
+        "    else:\n        try:\n            text = text.decode('utf-8')\n        except UnicodeDecodeError:\n"
+        "            text = text.decode('latin-1')\nelse:\n"
+        "    raise TypeError('Expected text or file-like object, got {!r}'.format(type(text)))"],
     'get_tokens.scan': [
         "iterable = enumerate(text)",
         "for (pos, char) in iterable:\n    for (rexmatch, action) in self._SQL_REGEX:\n        m = rexmatch(text, pos)\n"
@@ -71,6 +77,15 @@ def check_pins():
     if gt is None:
         raise Unsupported('Lexer.get_tokens not found')
     body = _body(gt)
+    # the whole body: the decode ladder (two statements, translated by gen_frontends) and the scan loop (two statements);
+    # anything in between (a pre-processing step that rewrites, strips or normalises the text) is not modelled
+    if len(body) != 4:
+        raise Unsupported('Lexer.get_tokens has %d top-level statements, the model was written from 4 (decode ladder: '
+                          'stream read, str/bytes ladder; scan: enumerate, for loop): %r'
+                          % (len(body), [ast.unparse(st)[:60] for st in body]))
+    if _dumps(body[:2]) != _pin_dumps(PINNED['get_tokens.ladder']):
+        raise Unsupported('Lexer.get_tokens: decode ladder is %r; the model was written from %r'
+                          % ([ast.unparse(st) for st in body[:2]], PINNED['get_tokens.ladder']))
     got = [ast.unparse(st) for st in body[-2:]]
     if _dumps(body[-2:]) != _pin_dumps(PINNED['get_tokens.scan']):
         raise Unsupported(f'Lexer.get_tokens: scan loop is {got!r}; the model was written from {PINNED["get_tokens.scan"]!r}')
